@@ -252,6 +252,17 @@ impl Exec {
                                 ));
                             }
                         }
+                        if spec.castle.is_none() && spec.takes && !pos.is_capture(m) {
+                            // a capture mark on a move that captures nothing: the text denotes no legal move
+                            self.stats.cnt("reach.san_capture_mark_on_quiet_move");
+                            if got.is_some() {
+                                return Err(viol(
+                                    "C12",
+                                    "rejection/accepted_capture_mark_on_quiet_move",
+                                    format!("from_san({}, {:?}) = {} but that move captures nothing", pos.fen(), text, m.uci()),
+                                ));
+                            }
+                        }
                         if spec.clean_for(pos, m) {
                             self.stats.cnt_dyn(format!("san.{}", spelling_class(spec, pos, m)));
                             if got.is_none() {
